@@ -120,6 +120,20 @@ def enumerate_cases(tier):
     combos += [([0, 1, 2], [2, 3, 4]), ([2, 3, 4], [0, 1, 2]), ([4, 3, 2], [2, 1, 0]), (["a", "b", "c"], ["c", "d", "e"]), ([0.5, 1.5], [1.5, 2.5, 3.5]), ([1, 2], [2]), ([2], [1, 2]),
                ([0.5, 1.5, 2.5], [0.5, 1.5000045, 2.5]), ([300.0, 301.0], [300.0006, 301.0]), ([2000.01, 2000.02], [2000.01, 2000.03]),
                ([3, 1, 2], [0]), ([1, 2, 3], [0]), ([0], [1, 2, 3]), ([1.5, 2.5], [0.0]), (["c", "a"], [""]), ([""], ["c", "a"]), ([7], [0]), ([0], [7])]
+    # three-dimensional inputs: the FIRST secondary axis agrees, a later one differs (same size, other order / other labels) - and the other way round
+    for func in ("stack", "concatenate"):
+        for which, other_l in (("z", ["q", "p"]), ("z", ["p", "r"]), ("y", [2, 1]), ("y", [1, 3])):
+            for align in (False, True):
+                for n_in in (2, 3):
+                    specs = []
+                    for k in range(n_in):
+                        lx = [10 * k + 1, 10 * k + 2] if func == "concatenate" else [1, 2]
+                        ly_, lz_ = [1, 2], ["p", "q"]
+                        if k == n_in - 1:
+                            ly_, lz_ = (other_l, lz_) if which == "y" else (ly_, other_l)
+                        specs.append({"dims": ["x", "y", "z"], "labels": [lx, list(ly_), list(lz_)], "vk": "f", "base": 50 * k})
+                    yield "secondary-axis-relations", {"func": func, "specs": specs, "cdim": "x" if func == "concatenate" else None, "caxis_form": "name",
+                                                       "keys": "default" if func == "concatenate" else "str", "container": "list", "align": align, "sort": False, "newaxis": "stk"}
     for base_y, ly in combos:
         for _ in (0,):
             tab = {"base": base_y}
